@@ -19,7 +19,9 @@ UNITS = ["GenSCP", "GenSCPShape"]
 RC_OK = 0x80
 RC_RETRYABLE = {0x82: "RC_SUM (bad checksum)", 0x8d: "RC_P2P_BUSY (destination busy)"}
 FATAL_POOL = [0x81, 0x83, 0x84, 0x85, 0x86, 0x87, 0x88, 0x89, 0x8a, 0x8b, 0x8c, 0x8e, 0x8f,   # documented
-              0x00, 0x01, 0x7f, 0x90, 0xff, 0xffff]                                              # unknown
+              0x00, 0x01, 0x7f, 0x90, 0xff, 0xffff,                                              # unknown
+              # 16-bit codes whose LOW byte is an OK / retryable / fatal code: unknown codes, hence fatal
+              0x0180, 0x0182, 0x018d, 0x0181, 0x8080, 0x8082, 0x808d, 0xff80, 0xff82, 0xff8d, 0x0288, 0xff8f]
 
 
 # ------------------------------------------------------------------------------------------ generator
